@@ -58,6 +58,10 @@ class State:
         """append a trace entry together with a snapshot of the heap at the time of the call"""
         ev = Ev(name, args, results, pos, kind, dict(self.heap), list(self.held))
         self.trace.append(ev)
+        if kind in ("call", "read", "go"):
+            k = ("ncalls", name)
+            cur = self.ghost.get(k)
+            self.ghost[k] = (cur + 1) if cur is not None else z3.IntVal(1)
         self.eng.after_call(self, ev)
 
     def assume(self, c):
